@@ -2,7 +2,7 @@
  * equals the reference bracket-aware scan on every input of up to BUF_N bytes, special or not. */
 void harness(void) {
   HAVOC_BUFS;
-  sv_t view; view.n = nondet_size(); MAKE_SV(view);
+  ND_SV(view);
   NONDET(_Bool, is_special);
   sv_t orig = view;
   pair_size_t_Bool_t r = get_host_delimiter_location(is_special, &view);
